@@ -153,6 +153,11 @@ def toArrayFrom : Nat → List Nat → List Nat
 /-- bitmap_store.rs:276 `to_array_store` (before `from_vec_unchecked`) -/
 def toArray (b : BStore) : List Nat := toArrayFrom 0 b.bits
 
+/-- bitmap_store.rs:280-289 `to_array_store` *with* its closing `ArrayStore::from_vec_unchecked(vec)` (`none` = the
+    debug validation panics).  `Lemmas/MirrorLemmas.lean`: `= some b.toArray` for every `BStore.Inv` store, so the
+    callers (`ensureCorrectStore`, `remove_smallest/biggest`) may use the bare `toArray`. (fidelity audit) -/
+def toArrayOp (dbg : Bool) (b : BStore) : Option (List Nat) := Arr.fromVecUnchecked dbg b.toArray
+
 /-- bitmap_store.rs:313 `rank` -/
 def rank (b : BStore) (i : Nat) : Nat :=
   let k := wkey i
@@ -213,6 +218,58 @@ def opBitmaps (f : Nat → Nat → Nat) (a b : BStore) : BStore :=
   let bits := List.zipWith f a.bits b.bits
   { len := popSum bits, bits }
 
+/-! #### `op_bitmaps` as the single loop the Rust runs (fidelity audit)
+
+`opBitmaps` above computes all words first and recounts afterwards (two passes); the Rust is ONE loop that applies the
+operator to a word and immediately adds that word's `count_ones()` to `bits1.len`, starting from `bits1.len = 0`.
+`opBitmapsMirror` is that loop; `opBitmaps_mirror_eq` proves it equal (unconditionally) and the `@[csimp]` equation
+makes the compiled driver execute the mirrored loop wherever the model calls `opBitmaps` (`orB/andB/subB/xorB`).
+The theorems stay about `opBitmaps`. -/
+
+theorem popFold_acc (ws : List Nat) : ∀ n : Nat,
+    ws.foldl (fun acc w => acc + popcount w) n = n + popSum ws := by
+  unfold popSum
+  induction ws with
+  | nil => intro n; simp
+  | cons w ws ih => intro n; simp only [List.foldl_cons]; rw [ih (n + popcount w), ih (0 + popcount w)]; omega
+
+theorem popSum_cons' (w : Nat) (ws : List Nat) : popSum (w :: ws) = popcount w + popSum ws := by
+  show (w :: ws).foldl (fun acc w => acc + popcount w) 0 = _
+  simp only [List.foldl_cons]; rw [popFold_acc]; omega
+
+/-- bitmap_store.rs:636-639 `for (index1, &index2) in bits1.bits.iter_mut().zip(bits2.bits.iter()) { op(index1, index2);
+    bits1.len += index1.count_ones() as u64; }` — `len` is the running value of `bits1.len` -/
+def opLoop (f : Nat → Nat → Nat) : List Nat → List Nat → Nat → Nat × List Nat
+  | x :: xs, y :: ys, len =>
+    let w := f x y                                   -- op(index1, index2)
+    let r := opLoop f xs ys (len + popcount w)       -- bits1.len += index1.count_ones()
+    (r.1, w :: r.2)
+  | _, _, len => (len, [])
+
+/-- bitmap_store.rs:634 `op_bitmaps`, mirrored: `bits1.len = 0;` then the loop -/
+def opBitmapsMirror (f : Nat → Nat → Nat) (a b : BStore) : BStore :=
+  let r := opLoop f a.bits b.bits 0                  -- bits1.len = 0
+  { len := r.1, bits := r.2 }
+
+theorem opLoop_eq (f : Nat → Nat → Nat) : ∀ (xs ys : List Nat) (len : Nat),
+    opLoop f xs ys len = (len + popSum (List.zipWith f xs ys), List.zipWith f xs ys) := by
+  intro xs
+  induction xs with
+  | nil => intro ys len; simp [opLoop, popSum]
+  | cons x xs ih =>
+    intro ys len
+    cases ys with
+    | nil => simp [opLoop, popSum]
+    | cons y ys =>
+      simp only [opLoop, List.zipWith_cons_cons, ih, popSum_cons']
+      simp only [Prod.mk.injEq, and_true]; omega
+
+theorem opBitmaps_mirror_eq (f : Nat → Nat → Nat) (a b : BStore) : opBitmapsMirror f a b = opBitmaps f a b := by
+  simp [opBitmapsMirror, opBitmaps, opLoop_eq]
+
+@[csimp] theorem opBitmaps_eq_mirror : @opBitmaps = @opBitmapsMirror := by
+  funext f a b; exact (opBitmaps_mirror_eq f a b).symm
+
 def orB := opBitmaps (· ||| ·)
 def andB := opBitmaps (· &&& ·)
 def subB := opBitmaps (fun l r => l &&& not64 r)
@@ -242,6 +299,101 @@ def xorArr (b : BStore) (v : List Nat) : BStore :=
     let new := old ^^^ (1 <<< bit)
     (p.1 + 1 - 2 * (((1 <<< bit) &&& old) >>> bit : Nat), p.2.set k new)) ((b.len : Int), b.bits)
   { len := (r.1 % (W : Int)).toNat, bits := r.2 }
+
+/-! #### `insert_range` with the fused middle loop of the Rust (fidelity audit)
+
+`insertRange` above handles the full words between the first and the last word in two passes (`popSum` of the slice,
+then `fillWords`); the Rust is ONE loop that counts a word and overwrites it.  `insertRangeMirror` runs that loop
+(`midLoop`); `insertRange_mirror_eq` proves it equal whenever the last word index is inside the word list (for a
+`BStore.Inv` store — 1024 words — and a `u16` argument: always; the Rust would panic on the index otherwise).  The
+`@[csimp]` equation makes the compiled driver execute the mirrored loop under exactly that (run-time checked) guard. -/
+
+/-- bitmap_store.rs:148-151 `for i in (start_key + 1)..end_key { existed += self.bits[i].count_ones();
+    self.bits[i] = u64::MAX; }` — `n` iterations left, loop variable `i` -/
+def midLoop : Nat → Nat → Nat → List Nat → Nat × List Nat
+  | 0, _, existed, bits => (existed, bits)
+  | n+1, i, existed, bits => midLoop n (i+1) (existed + popcount (word bits i)) (bits.set i wMax)
+
+theorem midLoop_eq : ∀ (n i existed : Nat) (bits : List Nat), i + n ≤ bits.length →
+    midLoop n i existed bits = (existed + popSum ((bits.drop i).take n), fillWords bits i (i + n) wMax) := by
+  intro n
+  induction n with
+  | zero =>
+    intro i existed bits _
+    simp [midLoop, fillWords, popSum]
+  | succ n ih =>
+    intro i existed bits h
+    have hi : i < bits.length := by omega
+    rw [midLoop, ih (i+1) _ _ (by simp; omega)]
+    have hd : bits.drop i = bits[i] :: bits.drop (i+1) := by
+      exact List.drop_eq_getElem_cons hi
+    have hw : word bits i = bits[i] := by
+      simp [word, List.getD, List.getElem?_eq_getElem hi]
+    have h1 : ((bits.set i wMax).drop (i+1)).take n = (bits.drop (i+1)).take n := by
+      rw [List.drop_set_of_lt (by omega)]
+    have h2 : fillWords (bits.set i wMax) (i+1) (i+1+n) wMax = fillWords bits i (i + (n+1)) wMax := by
+      unfold fillWords
+      have e1 : (bits.set i wMax).take (i+1) = bits.take i ++ [wMax] := by
+        rw [List.take_set]
+        rw [List.take_succ_eq_append_getElem hi, List.set_append]
+        simp [List.length_take, Nat.min_eq_left (Nat.le_of_lt hi)]
+      have e2 : (bits.set i wMax).drop (i+1+n) = bits.drop (i + (n+1)) := by
+        rw [List.drop_set_of_lt (by omega)]; congr 1; omega
+      rw [e1, e2]
+      have e3 : i + 1 + n - (i+1) = n := by omega
+      have e4 : i + (n+1) - i = n + 1 := by omega
+      rw [e3, e4, List.replicate_succ]
+      simp
+    rw [h1, h2, hd, List.take_succ_cons, popSum_cons', hw]
+    simp only [Prod.mk.injEq, and_true]; omega
+
+/-- bitmap_store.rs:116 `insert_range`, the middle words handled by the single fused loop of the Rust -/
+def insertRangeMirror (b : BStore) (s e : Nat) : BStore × Nat :=
+  let sk := wkey s; let sb := wbit s
+  let ek := wkey e; let eb := wbit e
+  if sk = ek then
+    let mask := maskLE eb &&& maskGE sb
+    let existed := popcount (word b.bits sk &&& mask)
+    let bits := b.bits.set sk (word b.bits sk ||| mask)
+    let inserted := (e - s + 1) - existed
+    ({ len := b.len + inserted, bits }, inserted)
+  else
+    let mask := maskGE sb
+    let existed := popcount (word b.bits sk &&& mask)
+    let bits := b.bits.set sk (word b.bits sk ||| mask)
+    let r := midLoop (ek - (sk + 1)) (sk + 1) existed bits     -- for i in (start_key + 1)..end_key
+    let existed := r.1
+    let bits := r.2
+    let mask := maskLE eb
+    let existed := existed + popcount (word bits ek &&& mask)
+    let bits := bits.set ek (word bits ek ||| mask)
+    let inserted := e - s + 1 - existed
+    ({ len := b.len + inserted, bits }, inserted)
+
+theorem insertRange_mirror_eq (b : BStore) (s e : Nat) (hse : s ≤ e) (he : wkey e ≤ b.bits.length) :
+    insertRangeMirror b s e = insertRange b s e := by
+  unfold insertRangeMirror insertRange
+  by_cases hk : wkey s = wkey e
+  · simp only [hk, if_true]
+  · simp only [hk, if_false]
+    have hlt : wkey s < wkey e := by
+      have : wkey s ≤ wkey e := by unfold wkey; exact Nat.div_le_div_right hse
+      omega
+    rw [midLoop_eq _ _ _ _ (by simp only [List.length_set]; omega)]
+    have : wkey s + 1 + (wkey e - (wkey s + 1)) = wkey e := by omega
+    simp only [this]
+
+/-- what the compiled driver runs for `insertRange`: the mirrored loop whenever the index range is inside the word
+    list (always, for a `BStore.Inv` store and `s ≤ e < 65536`) -/
+def insertRangeExec (b : BStore) (s e : Nat) : BStore × Nat :=
+  if s ≤ e ∧ wkey e ≤ b.bits.length then insertRangeMirror b s e else insertRange b s e
+
+@[csimp] theorem insertRange_eq_exec : @insertRange = @insertRangeExec := by
+  funext b s e
+  unfold insertRangeExec
+  split
+  · next h => exact (insertRange_mirror_eq b s e h.1 h.2).symm
+  · rfl
 
 end BStore
 
